@@ -39,6 +39,7 @@
 #include <stdio.h>
 #include <stdlib.h>
 #include <string.h>
+#include <sys/sendfile.h>
 #include <sys/stat.h>
 #include <time.h>
 #include <unistd.h>
@@ -74,6 +75,7 @@ struct gfs_inputs {
 	uint8_t readdir_json_first;      /* directory enumeration order */
 	uint8_t flush_now[GFS_NCHOICE];  /* stdio: does this fwrite/fputs drain the buffer now? */
 	uint8_t wr_short[8]; uint32_t wr_len[8]; /* benign short write()s of the stream */
+	uint8_t sf_short; uint32_t sf_len;       /* sendfile(2)/copy_file_range(2): benign short transfer (man 2 sendfile: "may write fewer bytes than requested") */
 };
 
 enum { D_TRACE, D_LOOM, D_PROC, D_THR, T_ROOT, T_LOOM, T_PROC, T_THR, GFS_NDIR };
@@ -329,9 +331,15 @@ static struct gfs_stream *gfs_stream_of(FILE *fp)
 	if (h == 2) return &gfs_s[1];
 	return &gfs_s[2];
 }
+/* A harness may define GFS_FOREIGN_PATH_HOOK(path, write) to judge a file name outside the modelled
+ * namespace by its own property before the generic "env:" assertion reports it as not modelled. */
+#ifndef GFS_FOREIGN_PATH_HOOK
+#define GFS_FOREIGN_PATH_HOOK(path, wr) ((void) 0)
+#endif
 static FILE *v_fopen(const char *path, const char *mode)
 {
 	int f = gfs_file_id(path);
+	if (f < 0) GFS_FOREIGN_PATH_HOOK(path, mode[0] == 'w');
 	V_ASSERT(f >= 0, "env: fopen on a path outside the modelled namespace");
 	int w = (mode[0] == 'w');
 	if (gfs_syscall()) { errno = GFS_FAULT_ERRNO(EACCES); return NULL; }
@@ -472,6 +480,58 @@ static int v_remove(const char *path)
 	return 0;
 }
 
+/* rename(2): atomic replacement of dst by src (both inside the modelled namespace) */
+static int v_rename(const char *src, const char *dst)
+{
+	int a = gfs_file_id(src), b = gfs_file_id(dst);
+	if (a < 0) GFS_FOREIGN_PATH_HOOK(src, 1);
+	if (b < 0) GFS_FOREIGN_PATH_HOOK(dst, 1);
+	V_ASSERT(a >= 0 && b >= 0, "env: rename on a path outside the modelled namespace");
+	if (gfs_syscall()) { errno = GFS_FAULT_ERRNO(EACCES); return -1; }
+	if (!gfs_f[a].exists) { errno = ENOENT; return -1; }
+	if (!gfs_dir[gfs_dir_of_file(b)]) { errno = ENOENT; return -1; }
+	if (a == b) return 0;
+	gfs_f[b] = gfs_f[a];
+	gfs_f[a].exists = 0; gfs_f[a].len = 0; gfs_f[a].complete = 0; gfs_f[a].finished = 0; gfs_f[a].total = 0;
+	return 0;
+}
+/* fileno/fstat/sendfile: kernel-side copy between two stdio handles.  Descriptors of stdio handles are 10 + handle. */
+static int v_fileno(FILE *fp) { (void) gfs_stream_of(fp); return 10 + (int) (uintptr_t) fp; }
+static int v_fstat(int fd, struct stat *st)
+{
+	V_ASSERT(fd >= 11 && fd <= 13, "env: fstat on the descriptor of a stdio handle");
+	struct gfs_stream *s = &gfs_s[fd - 11];
+	V_ASSERT(s->used, "env: fstat on an open stream");
+	if (gfs_syscall()) { errno = GFS_FAULT_ERRNO(EIO); return -1; }
+	st->st_mode = S_IFREG | 0644;
+	st->st_size = (off_t) gfs_f[s->file].len;
+	return 0;
+}
+static ssize_t v_sendfile(int out, int in, off_t *off, size_t count)
+{
+	V_ASSERT(out >= 11 && out <= 13 && in >= 11 && in <= 13 && off == NULL, "env: sendfile between the descriptors of two stdio handles, no explicit offset");
+	struct gfs_stream *so = &gfs_s[out - 11], *si = &gfs_s[in - 11];
+	V_ASSERT(so->used && so->writing && si->used && !si->writing && so->buffered == 0, "env: sendfile from a stream open for reading to an unbuffered stream open for writing");
+	uint64_t rem = gfs_f[si->file].len - si->pos;
+	uint64_t want = rem < count ? rem : count;
+	int hit = gfs_syscall();
+	if (want == 0) return 0;
+	uint64_t r = want;
+	if (hit) {
+		if (!(GFS_FAULT_SHORT() && want > 1)) { errno = GFS_FAULT_ERRNO(EIO); return -1; }
+		r = (GFS_SHORTLEN() >= 1 && GFS_SHORTLEN() < want) ? GFS_SHORTLEN() : 1;
+	} else if (gfs_in()->sf_short && want > 1) {
+		/* not a fault: the call legitimately transfers fewer bytes than requested and reports how many */
+		r = (gfs_in()->sf_len >= 1 && gfs_in()->sf_len < want) ? gfs_in()->sf_len : 1;
+	}
+	si->pos += r;
+	gfs_f[so->file].len += r;
+	so->total += r;
+	so->copying = 1; so->copy_src = si->file;
+	gfs_after_write(so);
+	return (ssize_t) r;
+}
+
 /* ---------------- opendir/readdir ---------------- */
 static struct dirent gfs_dirent[3];
 static int gfs_rd_pos, gfs_rd_dir, gfs_rd_open;
@@ -603,6 +663,10 @@ static void gv_free_serialized_string(char *s) { (void) s; }
 #define fclose(f) v_fclose(f)
 #define ferror(f) v_ferror(f)
 #define remove(p) v_remove(p)
+#define rename(a, b) v_rename(a, b)
+#define fileno(f) v_fileno(f)
+#define fstat(fd, st) v_fstat(fd, st)
+#define sendfile(o, i, off, n) v_sendfile(o, i, off, n)
 #define opendir(p) v_opendir(p)
 #define readdir(d) v_readdir(d)
 #define closedir(d) v_closedir(d)
